@@ -158,6 +158,7 @@ func c04FlagOrder(w *World, r *Report) {
 		// index order: the slice is iterated with a range (IndexAddr with an induction variable starting at -1 / 0 and +1)
 		r.Check(rangesForward(fams[i].load), "C04/FLAG-ORDER", key+"/index-order", w.InstrPos(fams[i].load), "the slice is ranged over front to back", "the slice is not consumed front to back (later flags of one family would not win)")
 	}
+	c04FamilyOneLoop(w, r, fn, accAliases)
 	for i := 0; i+1 < len(flagFamilies); i++ {
 		a, b := fams[i], fams[i+1]
 		if a.load == nil || b.load == nil || len(a.consumers) == 0 || len(b.consumers) == 0 {
@@ -1024,5 +1025,132 @@ func c04ChildSection(w *World, r *Report) {
 	}
 	if n == 0 {
 		r.Unk("C04/CHILD-SECTION", "no-return", w.Pos(fn.Pos()), "no non-constant answer found")
+	}
+}
+
+// c04FamilyOneLoop: inside one flag family the command-line order decides (later wins). The values of
+// a family may be pre-processed into another list, but everything of the family that is merged into
+// the accumulator is merged in one loop: two loops over two partial lists (say, all JSON objects first,
+// then all key=value expressions) lose the order between the parts.
+func c04FamilyOneLoop(w *World, r *Report, fn *ssa.Function, accAliases map[ssa.Value]bool) {
+	scc := sccOf(fn)
+	isLoop := func(b *ssa.BasicBlock) bool {
+		comp := scc[b]
+		if len(comp) > 1 {
+			return true
+		}
+		for _, s := range b.Succs {
+			if s == b {
+				return true
+			}
+		}
+		return false
+	}
+	compID := func(b *ssa.BasicBlock) *ssa.BasicBlock {
+		comp := scc[b]
+		if len(comp) == 0 {
+			return b
+		}
+		min := comp[0]
+		for _, x := range comp {
+			if x.Index < min.Index {
+				min = x
+			}
+		}
+		return min
+	}
+	// merge sites: calls that are handed the accumulator
+	var sites []ssa.CallInstruction
+	for _, c := range callInstrs(fn) {
+		if _, isBuiltin := c.Common().Value.(*ssa.Builtin); isBuiltin {
+			continue
+		}
+		for _, a := range c.Common().Args {
+			if accAliases[a] && isLoop(c.Block()) {
+				sites = append(sites, c)
+				break
+			}
+		}
+	}
+	for _, ff := range flagFamilies {
+		lists := map[ssa.Value]bool{}
+		for _, b := range fn.Blocks {
+			for _, in := range b.Instrs {
+				if ld, ok := in.(*ssa.UnOp); ok && ld.Op == token.MUL {
+					if p, t, f := fieldNameOf(ld.X); p == valuesPkg && t == "Options" && f == ff.Field {
+						lists[ld] = true
+					}
+				}
+			}
+		}
+		if len(lists) == 0 {
+			continue
+		}
+		loops := map[*ssa.BasicBlock]bool{} // loops (by id) that walk a list of the family
+		for round := 0; round < 4; round++ {
+			changed := false
+			for _, b := range fn.Blocks {
+				if !isLoop(b) {
+					continue
+				}
+				for _, in := range b.Instrs {
+					var x ssa.Value
+					switch y := in.(type) {
+					case *ssa.IndexAddr:
+						x = y.X
+					case *ssa.Index:
+						x = y.X
+					case *ssa.Range:
+						x = y.X
+					}
+					if x != nil && lists[x] && !loops[compID(b)] {
+						loops[compID(b)] = true
+						changed = true
+					}
+				}
+			}
+			// lists appended to inside such a loop belong to the family
+			for _, b := range fn.Blocks {
+				if !isLoop(b) || !loops[compID(b)] {
+					continue
+				}
+				for _, in := range b.Instrs {
+					c, ok := in.(*ssa.Call)
+					if !ok {
+						continue
+					}
+					if bi, ok := c.Call.Value.(*ssa.Builtin); !ok || bi.Name() != "append" {
+						continue
+					}
+					for a := range forwardAliases(c) {
+						if !lists[a] {
+							lists[a] = true
+							changed = true
+						}
+					}
+				}
+			}
+			if !changed {
+				break
+			}
+		}
+		in := map[*ssa.BasicBlock]ssa.CallInstruction{}
+		for _, s := range sites {
+			if loops[compID(s.Block())] {
+				if _, ok := in[compID(s.Block())]; !ok {
+					in[compID(s.Block())] = s
+				}
+			}
+		}
+		if len(in) == 0 {
+			continue
+		}
+		pos := ""
+		for _, s := range in {
+			if p := w.InstrPos(s); p > pos {
+				pos = p
+			}
+		}
+		r.Check(len(in) == 1, "C04/FLAG-ORDER", "family:"+ff.Field+"/one-loop", pos, "everything of the family is merged into the accumulator in one loop", fmt.Sprintf("the %s family is merged into the accumulator in %d separate loops over parts of it: the command-line order between the parts is lost (a later flag no longer wins over an earlier one of the other part)", ff.Field, len(in)))
 	}
 }
